@@ -670,6 +670,13 @@ func runC10(c *hx.Ctx) {
 		var err error
 		p, _ := hx.Guard(func() { hh, err = tlog.HashFromTile(t, data, index) })
 		arg := wire.L(gen.TileVal(t), wire.Bytes(data), wire.I(index))
+		{
+			msg := ""
+			if p && index >= 0 {
+				msg = fmt.Sprintf("HashFromTile(%v, %d bytes, %d) panicked", t, len(data), index)
+			}
+			c.Check("hash-from-tile-no-panic", msg == "", "", c10In{Op: "hftpanic", Tile: &t, Index: index, N: int64(len(data))}, msg)
+		}
 		switch {
 		case p:
 			c.Case("HashFromTile", arg, wire.Panic())
@@ -935,6 +942,13 @@ func replayC10(raw json.RawMessage) (bool, string) {
 		hh, err := tlog.HashFromTile(t, small.IndepTile(t), in.Index)
 		if err == nil && !(in.Index >= 0 && in.Index < int64(len(small.store)) && hh == small.store[in.Index]) {
 			msg = fmt.Sprintf("HashFromTile(%v, true data, %d) is not the true hash", t, in.Index)
+		}
+	case "hftpanic":
+		t := *in.Tile
+		data := make([]byte, in.N)
+		p, pm := hx.Guard(func() { tlog.HashFromTile(t, data, in.Index) })
+		if p {
+			msg = fmt.Sprintf("HashFromTile(%v, %d bytes, %d) panicked: %s", t, in.N, in.Index, pm)
 		}
 	case "rtd":
 		small := c10GetLog(1, 140)
